@@ -4,6 +4,7 @@ import (
 	"encoding/binary"
 	"fmt"
 	"math"
+	"time"
 
 	"seehuhn.de/go/geom/rect"
 	"seehuhn.de/go/postscript/funit"
@@ -305,6 +306,21 @@ func runC12(c *mon.Ctx) {
 				k.Fail("mismatch", "derived:"+chk.name, "%s in the written file is %d, definition gives %d (%s)", chk.name, chk.got, chk.want, desc)
 			}
 		}
+		// timestamps: seconds since the start of 1904, zero for "not recorded"
+		for _, ts := range []struct {
+			name string
+			off  int
+			t    time.Time
+		}{{"head.created", 20, f.CreationTime}, {"head.modified", 28, f.ModificationTime}} {
+			want := int64(0)
+			if !ts.t.IsZero() {
+				want = ts.t.Unix() + 2082844800
+			}
+			if got := int64(binary.BigEndian.Uint64(headT.Data[ts.off:])); got != want {
+				k.Fail("mismatch", "derived:"+ts.name, "%s in the written file is %d, the font's timestamp %v is %d seconds after 1904-01-01 (%s)", ts.name, got, ts.t, want, desc)
+			}
+			k.Class(fmt.Sprintf("%s-unset=%v", ts.name, ts.t.IsZero()))
+		}
 		// average width
 		sum, cnt := 0, 0
 		for _, w := range iw {
@@ -336,5 +352,5 @@ func runC12(c *mon.Ctx) {
 			k.Sample(desc + fmt.Sprintf(" advanceWidthMax=%d numberOfHMetrics=%d", maxAdv, numH))
 		}
 	})
-	c.Require("derived-fields:glyf", "derived-fields:cff", "derived-fields:cid", "fixed-pitch=true", "fixed-pitch=false", "first-last-char-checked", "bbox-vs-points:cff", "bbox-vs-points:glyf", "hmtx-tail=0", "hmtx-tail=3", "extreme-side-bearings")
+	c.Require("derived-fields:glyf", "derived-fields:cff", "derived-fields:cid", "fixed-pitch=true", "fixed-pitch=false", "first-last-char-checked", "bbox-vs-points:cff", "bbox-vs-points:glyf", "hmtx-tail=0", "hmtx-tail=3", "extreme-side-bearings", "head.modified-unset=true", "head.created-unset=true")
 }
